@@ -18,7 +18,7 @@ from fractions import Fraction
 
 import numpy as np
 
-from .jet import CBackend, jconst, mul
+from .jet import CBackend, fix, jconst, mul
 
 TDIM = {"vertex": 0, "interval": 1, "triangle": 2, "tetrahedron": 3}
 REF_VERTS = {
@@ -162,7 +162,7 @@ class _Geometry:
             fn = getattr(self, "q_" + name, None)
             if fn is None:
                 raise Unsupported("geometric quantity " + name)
-            self.cache[name] = np.asarray(fn())
+            self.cache[name] = fix(np.asarray(fn()))
         return self.cache[name]
 
     # -- cell map
@@ -430,7 +430,7 @@ class PolyField:
         # powers of each coordinate
         pw = []
         for k in range(self.tdim):
-            xk = X[..., k]
+            xk = fix(X[..., k])
             lst = [None, xk]
             for _ in range(2, self.maxdeg + 1):
                 lst.append(mul(lst[-1], xk, d))
@@ -444,8 +444,8 @@ class PolyField:
             if term is None:
                 out[(0,) * d] = out[(0,) * d] + c
             else:
-                out = out + term[..., None] * c
-        return out
+                out = out + fix(term)[..., None] * c
+        return fix(out)
 
 
 def element_leaves(e):
